@@ -80,7 +80,11 @@ func genDL(t *rapid.T) DLCase {
 	n := rapid.IntRange(0, 3).Draw(t, "nNuisance")
 	for i := 0; i < n; i++ {
 		var b speer.Behaviour
-		switch rapid.IntRange(0, 6).Draw(t, "nk") {
+		switch rapid.IntRange(0, 7).Draw(t, "nk") {
+		case 7:
+			// serves a few blocks, chokes, unchokes at once, and never answers again (connected and unchoking)
+			b.ChokeAfter, b.ChokeMs = rapid.IntRange(1, 3).Draw(t, "ca2"), rapid.SampledFrom([]int{1, 20}).Draw(t, "cms2")
+			b.StallAfter, b.StallMs = b.ChokeAfter, 120000
 		case 0:
 			b.NeverUnchoke = true
 		case 1:
